@@ -599,7 +599,7 @@ var spec = kit.Spec[Case]{
 	Name:     "main",
 	Rule:     "pool of 2..10 honest blocks (CIDv0/v1, 5 hash functions incl. identity, some rejected by the default allowlist), random subset local; 1..6 GetBlock/GetBlocks calls (request lists 0..10 with duplicates and alias CIDs) through the service, a shared Session or ContextWithSession, against a scripted exchange of honesty level A (subset/order/duplicates), B (+unrequested valid blocks) or C (+wrong bytes / other block); non-trivial = some call had a valid local CID and an honest block delivered by the exchange",
 	Quick:    6000,
-	Thorough: 40000,
+	Thorough: 100000,
 	Gen:      genCase,
 	Run:      run,
 }
